@@ -11,12 +11,16 @@ def obligations(tier):
            "chartparse.sync.BPMEvents.timestamp_at_tick", "chartparse.util.DictPropertiesEqMixin.__eq__",
            "chartparse.instrument.InstrumentTrack.last_note_end_timestamp")
     obs = [Ob("C19.one_op", "CH", "harness.h_chart", "immutability", 1500, funcs=fns,
-              bounds="one read-only operation of 9 kinds with symbolic arguments (3 representative instruments x 4 difficulties, 6 bound forms) on a parsed chart; full observation + twin equality before/after"),
+              bounds="one read-only operation of 9 kinds with symbolic arguments (3 representative instruments x 4 difficulties, 6 bound forms) on a parsed chart; full observation (every public datum, str()/repr() of the chart and of its parts) + twin equality before/after"),
            Ob("C19.rejects_assignment", "CH", "harness.h_chart", "rejects_assignment", 600, funcs=("dataclass(frozen=True) on every event / track / metadata class",),
               bounds="every declared field of every event, track and metadata class")]
     for cv, what in ((1, "want_tracks=[]"), (2, "one selected track")):
         obs.append(Ob(f"C19.one_op.parsed_with[{what}]", "CH", "harness.h_chart", "immutability", 1500, {"VF_CV": cv}, funcs=fns,
                       bounds=f"the chart under test was parsed with {what}"))
+    obs.append(Ob("C19.one_op.chart[player2=rhythm,bass-only]", "CH", "harness.h_chart", "immutability", 1500, {"VF_CV": 3}, funcs=fns,
+                  bounds="a chart whose [Song] says Player2 = rhythm and which has DoubleBass tracks but no DoubleRhythm track; look-ups by RHYTHM / BASS / GUITAR"))
+    obs.append(Ob("C19.one_op.chart[600-note track]", "CH", "harness.h_chart", "immutability", 2400, {"VF_CV": 4, "VF_OP1SET": "0,1" if tier == "quick" else "0,1,2,3,4,5,6,7,8"}, funcs=fns,
+                  bounds="a chart with a 600-note track (size-triggered behaviour); rate queries in all bound forms with tick bounds <= 2, look-ups"))
     if tier == "thorough":
         for p in range(10):
             obs.append(Ob(f"C19.one_op.instrument{p}", "CH", "harness.h_chart", "immutability", 1500, {"VF_ALLINSTR": 1, "VF_NPARTS": 10, "VF_PART": p}, funcs=fns,
